@@ -20,7 +20,7 @@ var EscapeAgree = &core.Rule{Name: "R-ESCAPEAGREE", Run: runEscapeAgree,
 	Doc: "sibling agreement in package parser: the set of maximal digit counts of a legacy octal escape in (*_parser).scanEscape (constants assigned to `length` together with base 8) equals the set in parseStringLiteral (1 + the constant bound(s) of the loop that shifts the value left by 3)"}
 
 func runEscapeAgree(p *core.Prog) *core.Result {
-	res := core.NewResult("R-ESCAPEAGREE", 1)
+	res := core.NewResult("R-ESCAPEAGREE", 2)
 	const parserPath = core.GojaPath + "/parser"
 	scan, err := p.LookupMethod(parserPath, "_parser", "scanEscape")
 	if err != nil {
@@ -152,6 +152,50 @@ func runEscapeAgree(p *core.Prog) *core.Result {
 		res.OK(key, p.Pos(decode.Pos()), fmt.Sprintf("both consume at most %v digits", a))
 	} else {
 		res.Bad(key, p.Pos(decode.Pos()), fmt.Sprintf("scanEscape measures a legacy octal escape with at most %v digits, parseStringLiteral decodes at most %v: for an escape on which they differ (e.g. \"\\477\") the decoder's own length self-check panics, and that Go panic escapes Parse/Compile/RunString/eval", a, b))
+	}
+	// \u{...}: both sides compare the accumulated code point with utf8.MaxRune. The scanner keeps
+	// consuming digits (and finally the closing brace) while its test holds; the decoder rejects the
+	// escape when its test holds. They agree iff the scanner's "continue" set is the complement of the
+	// decoder's "reject" set at the boundary value itself.
+	const maxRune = 0x10FFFF
+	type cmp struct {
+		op        token.Token
+		valueLeft bool
+		pos       token.Pos
+		found     bool
+	}
+	findCmp := func(fn *ssa.Function) cmp {
+		var out cmp
+		core.AllInstrs(fn, func(in ssa.Instruction) {
+			bo, ok := in.(*ssa.BinOp)
+			if !ok {
+				return
+			}
+			switch bo.Op {
+			case token.LSS, token.LEQ, token.GTR, token.GEQ:
+			default:
+				return
+			}
+			if c, ok := core.IntConst(bo.Y); ok && c == maxRune {
+				out = cmp{bo.Op, true, bo.Pos(), true}
+			} else if c, ok := core.IntConst(bo.X); ok && c == maxRune {
+				out = cmp{bo.Op, false, bo.Pos(), true}
+			}
+		})
+		return out
+	}
+	holdsAtMax := func(c cmp) bool { // does `value OP MaxRune` hold for value == MaxRune
+		return c.op == token.LEQ || c.op == token.GEQ
+	}
+	sc, dc := findCmp(scan), findCmp(decode)
+	key2 := "scanEscape~parseStringLiteral:\\u{...} upper bound"
+	switch {
+	case !sc.found || !dc.found:
+		return res.Failf("unresolved anchor: the comparison with utf8.MaxRune was not found in scanEscape / parseStringLiteral")
+	case holdsAtMax(sc) != !holdsAtMax(dc):
+		res.Bad(key2, p.Pos(sc.pos), "for the code point 0x10FFFF itself the scanner stops consuming (its loop test fails) although the decoder accepts the escape: the closing brace is left unread, the measured length is one short and the decoder's self-check panics (\"\\u{10FFFF}\")")
+	default:
+		res.OK(key2, p.Pos(sc.pos), "scanner continues exactly while the decoder does not reject")
 	}
 	return res
 }
